@@ -4,7 +4,15 @@
 (* four account kinds, not only the ones one account manager can produce) up to LawBatch.          *)
 EXTENDS Signer
 
-CONSTANT LawBatch
+CONSTANTS LawBatch,
+          HistOps, HistKinds, HistFails    \* the requests of the history configurations (MC_Signer_hist*.cfg: Calls <- HistCalls)
+
+\* histories: few request shapes, several overlapping requests (the single-request configurations take
+\* every request of the constants and one request per history)
+HistCalls == {c \in [op : HistOps, slot : Slots, epoch : {CHOOSE e \in GivenEpochs : TRUE},
+                     kinds : SeqsUpTo(HistKinds, MaxBatch), fail : HistFails, failidx : {0}] :
+                 /\ ValidCall(c)
+                 /\ (SigSpec[c.op].epoch # "slot") => c.slot = CHOOSE s \in Slots : TRUE}
 
 \* forall batches: Merge(Map(sign, Split(b))) = Map(sign, b), with a signing function that tells
 \* positions apart and with one that does not (same root for every account)
